@@ -36,7 +36,7 @@ func RefNames(n *SNode) []string {
 				for _, it := range r.Or {
 					add(it.Name)
 					for _, rr := range it.Rules {
-						if rr.Name == "type" {
+						if rr.Name == "type" || rr.Name == "additionalProperties" {
 							add(strings.Trim(rr.Tok, `"`))
 						}
 					}
